@@ -68,13 +68,25 @@ def dynamic_clause(ctx):
             ext = {'wows': 'wowsreplay', 'wot': 'wotreplay', 'wowp': 'wowpreplay'}[game]
             p = os.path.join(tmp, v + '.' + ext)
             rng = random.Random(ctx.rng.randrange(10 ** 9))
-            if game == 'wows': battle.write_wows(p, v, rng)
+            b_ = None
+            if game == 'wows':
+                b_, vs_ = battle.build_wows(v, rng)
+                # lap 1 names the version by its directory components only (no build number), lap 2 with a build number: both select this directory
+                if lap == 1 or v.count('_') == 3: vs_ = ','.join(v.split('_'))
+                battle.write_replay(p, 'wowsreplay', {'clientVersionFromXml': vs_}, b_.stream())
             else: battle.write_simple(p, game, v, rng)
             ctx.case(('battle', label, lap)); ctx.count('battle:' + game); ctx.count('lap:%d' % lap)
             try:
                 h = ReplayParser(p, strict=True).get_info()['hidden']; ok = h is not None; why = 'hidden is None'
             except Exception as ex:
                 ok = False; why = '%s: %s' % (type(ex).__name__, str(ex)[:160])
+            if ok and b_ is not None:
+                from tools import c09
+                diffs = c09.compare(b_, h, v)
+                if diffs:
+                    field, want, got = diffs[0]
+                    ctx.violation(dict(kind='battle-summary', version=label, lap=lap, field=field, expected=json.loads(json.dumps(want, default=str)), implementation=json.loads(json.dumps(got, default=str)),
+                                       how='a battle encoded against that version directory (its own definitions and constants), ReplayParser(path, strict=True).get_info()["hidden"]: the summary must report the events written'))
             if not ok:
                 key = ''
                 for cand in ('onNewPlayerSpawnedInBattle', 'onBattleEnd'):
